@@ -607,7 +607,8 @@ def conjV (k : Nat) (v : Vc α) : Vc α := vmap k conj v
 /-- `LinearOperator.T` -/
 def linT (a : Obj α) : Obj α :=
   if a.md.inDt.isComplex then
-    mkLin .linop a.md.outShape a.md.inShape a.md.inDt a.md.outDt
+    -- repo commit 1ee9fab: `input_dtype=self.output_dtype, output_dtype=self.input_dtype`
+    mkLin .linop a.md.outShape a.md.inShape a.md.outDt a.md.inDt
       (fun x => conjV a.n (a.adj (conjV a.m x)))
       (fun x => conjV a.m (a.eval (conjV a.n x))) a.adjCallDt a.evalDt
   else
